@@ -271,6 +271,8 @@ def mem_build(mem, G):
             G.si[i] = u.get_storage_index()
         elif k == "lit":
             data = (b"lit-%d-%d-" % (s, i) + b"x" * o.get("size", 0))[:max(o.get("size", 0), len(b"lit-%d-%d-" % (s, i)))]
+            if o.get("empty"):
+                data = b""      # a zero-length file (.keep, __init__.py): URI:LIT: -- one per graph, equal caps are one object
             u = uri.LiteralFileURI(data)
             G.caps[(i, "ro")] = u.to_string()
             G.verify[i] = None
@@ -397,6 +399,7 @@ def run_case(ctx, G, backend, label):
 
     reach = G.reachable_views()
     reach_objs = sorted(set(i for i, _ in reach))
+    sizes_early = backend.sizes(G)
     # ---- oracle on the manifest ----------------------------------------------------
     visits = []
     times = {}
@@ -446,7 +449,16 @@ def run_case(ctx, G, backend, label):
     want_stats = {"count-directories": count(("mdir", "idir", "ldir")), "count-immutable-files": count(("chk",)),
                   "count-literal-files": count(("lit",)), "count-mutable-files": count(("mut",)),
                   "count-files": count(("chk", "lit", "mut")), "count-unknown": count(("unk",))}
-    for which, st in (("deep-stats", stats), ("deep-check-stats", dstats)):
+    file_sizes = [sizes_early.get(i) for p, (i, v) in visits if G.objects[i]["kind"] in ("chk", "lit")]
+    for which, st in (("deep-stats", stats), ("manifest-stats", res["stats"]), ("deep-check-stats", dstats)):
+        # size histogram: every bucket (min, max, count) holds exactly the visited CHK/LIT files of that size range, none is left out
+        hist = [tuple(h) for h in st.get("size-files-histogram", [])]
+        if None not in file_sizes:
+            inb = [len([z for z in file_sizes if lo <= z <= hi]) for lo, hi, _ in hist]
+            if [c for _, _, c in hist] != inb or sum(inb) != len(file_sizes):
+                ctx.oracle_fail("deep-stats-size-histogram-differs-from-visited-files",
+                                "%s size-files-histogram %r does not account for the %d visited immutable/literal files of sizes %r"
+                                % (which, hist, len(file_sizes), sorted(file_sizes)), case=case, expected=len(file_sizes), observed=hist)
         got = {k: st[k] for k in want_stats}
         if got != want_stats:
             # explained by the once-per-link visits of objects without a verify cap?
@@ -544,7 +556,10 @@ def gen_spec(r, size, profile, salt):
         elif k < 0.45:
             objs.append({"kind": "chk", "links": [], "size": r.choice([56, 1000, 10 ** 6, 2 ** 33])})
         elif k < 0.65:
-            objs.append({"kind": "lit", "links": [], "size": r.choice([0, 1, 20, 55])})
+            if r.random() < 0.4 and not any(o.get("empty") for o in objs):
+                objs.append({"kind": "lit", "links": [], "size": 0, "empty": True})       # the zero-length file
+            else:
+                objs.append({"kind": "lit", "links": [], "size": r.choice([0, 1, 20, 55])})
         elif k < 0.85 or profile == "immutable":
             objs.append({"kind": "chk" if profile == "immutable" else "mut", "links": [], "size": 77, "mdmf": r.random() < 0.3})
         else:
@@ -637,6 +652,12 @@ def hand_specs():
         {"kind": "idir", "links": [["c", 0, False], ["ld", 2, False]]}, {"kind": "ldir", "links": []},
         {"kind": "idir", "links": [["sub", 3, False], ["c-again", 0, False], ["empty", 4, False]]}],
         "root": [5, "ro"], "salt": 5}))
+    # zero-length files: .keep directly under the root and again below a subdirectory reached twice
+    out.append(("empty-files", {"objects": [
+        {"kind": "lit", "links": [], "size": 0, "empty": True}, {"kind": "lit", "links": [], "size": 1}, {"kind": "chk", "links": [], "size": 56},
+        {"kind": "mdir", "links": [["one", 1, False], ["c", 2, False]]},
+        {"kind": "mdir", "links": [[".keep", 0, False], ["sub", 3, True], ["sub-ro", 3, False], ["c", 2, False]]}],
+        "root": [4, "rw"], "salt": 8}))
     # 99 files in one directory (just below the turn break), names that sort differently as bytes and as code points
     big = {"objects": [{"kind": "lit", "links": [], "size": 2} for _ in range(60)] + [{"kind": "chk", "links": []} for _ in range(39)], "root": [99, "rw"], "salt": 6}
     big["objects"].append({"kind": "mdir", "links": [["n%02dé" % j if j % 3 else "N%02d" % j, j, False] for j in range(99)]})
@@ -803,6 +824,8 @@ class GridBackend(object):
                 o["size"] = len(data)
             elif k == "lit":
                 data = (b"lit-%d-%d-" % (s, i) + b"x" * 55)[:max(o.get("size", 0), len(b"lit-%d-%d-" % (s, i)))][:55]
+                if o.get("empty"):
+                    data = b""
                 u = uri.LiteralFileURI(data)
                 G.caps[(i, "ro")] = u.to_string()
                 G.verify[i] = None
